@@ -27,7 +27,7 @@ type c07Case struct {
 	OnlyKind string `json:"only_kind,omitempty"`
 }
 
-var c07FaultKinds = []string{"err", "cas", "die", "lost-ack"}
+var c07FaultKinds = []string{"err", "cas", "die", "lost-ack", "unknown-lost"}
 
 func genC07(t *rapid.T) interface{} {
 	c := &c07Case{Engine: EnvStr("VERIF_ENGINE", EngMem), OnlyPos: -1}
@@ -220,6 +220,11 @@ func c07Exec(c *c07Case, pos int, kind string, st *CaseStats) (deletes int, inte
 				if i == pos {
 					return UncertainApplied
 				}
+			case "unknown-lost":
+				// the engine answers "outcome unknown" and the delete did not happen
+				if i == pos {
+					return UncertainNotApplied
+				}
 			}
 			return Pass
 		}
@@ -383,7 +388,7 @@ var _ = backend.PrefixEnd
 var specC07 = &Spec{
 	ID:    "C07",
 	Level: "fault_enumeration",
-	Rule:  "case = key pool (keys under the prefix, under skipped prefixes, outside the prefix), 0..2 skipped prefixes, history of 4..24 writes biased to multi-version keys / tombstones / re-creations, compaction revision (0, any revision, above current), 1..6 post-compaction writes. Per case: one fault-free compaction counts its D storage deletes, then every delete position p in 0..D-1 (all when D<=16, else 16 spread) x fault kind {delete fails, delete reports failed condition, compactor stops at p, delete applied but acknowledged as failed} is replayed on a fresh store. Non-trivial = some compactable key has a tombstone <= R or versions on both sides of R, and a fault was placed strictly inside 1..D-2; distinct = SHA-1 of the case",
+	Rule:  "case = key pool (keys under the prefix, under skipped prefixes, outside the prefix), 0..2 skipped prefixes, history of 4..24 writes biased to multi-version keys / tombstones / re-creations, compaction revision (0, any revision, above current), 1..6 post-compaction writes. Per case: one fault-free compaction counts its D storage deletes, then every delete position p in 0..D-1 (all when D<=16, else 16 spread) x fault kind {delete fails, delete reports failed condition, compactor stops at p, delete applied but answered outcome-unknown, delete not applied and answered outcome-unknown} is replayed on a fresh store. Non-trivial = some compactable key has a tombstone <= R or versions on both sides of R, and a fault was placed strictly inside 1..D-2; distinct = SHA-1 of the case",
 	Gen:   genC07,
 	New:   func() interface{} { return &c07Case{OnlyPos: -1} },
 	Run:   runC07,
